@@ -162,8 +162,16 @@ class G:
             else:
                 self.emit("new %s" % x)
                 keys = set(self.keyset())
-            for _ in range(steps):
+            self.shadows = []
+            for i in range(steps):
                 self.hist_step(x, keys)
+                if i == steps // 2 and self.shadows:
+                    for y in self.shadows:
+                        self.emit("dig %s" % y)
+            # the copies taken along the way still hold what they held when they were taken (or what was added to them since)
+            for y in self.shadows:
+                self.emit("dig %s" % y)
+            self.shadows = []
             self.emit("wf %s" % x)
             self.emit("size %s" % x)
 
@@ -191,7 +199,7 @@ class G:
         r = self.r
         op = force or r.choices(["add", "cadd", "addint", "addmany", "rem", "crem", "addr", "remr", "flip", "clear", "opt",
                         "cloneswap", "detach", "setcow", "query", "walk4096", "fillempty", "emptyedge", "trimruns"],
-                       [10, 8, 2, 4, 8, 8, 8, 8, 8, 0.3, 2, 1, 1, 1, 6, 2.5, 1, 2.5, 1.2])[0]
+                       [10, 8, 2, 4, 8, 8, 8, 8, 8, 0.3, 2, 2, 1, 1, 6, 2.5, 1, 2.5, 1.2])[0]
         self.count("histop:" + op)
         if op in ("add", "cadd", "addint", "rem", "crem"):
             self.emit("%s %s %d" % (op, x, self.val_near(keys)))
@@ -212,9 +220,30 @@ class G:
             self.emit("opt %s" % x)
         elif op == "cloneswap":
             y = self.fresh()
-            self.emit("%s %s %s" % (r.choice(["clone", "cowclone"]), y, x))
-            self.emit("add %s %d" % (y, self.val_near(keys)))
-            self.emit("dig %s" % x)
+            how = r.choice(["clone", "cowclone", "cowclone"])
+            self.emit("%s %s %s" % (how, y, x))
+            if hasattr(self, "shadows"):
+                self.shadows.append(y)
+            c = r.random()
+            if how == "cowclone" and c < 0.5:
+                # containers are shared now; switching copy-on-write off on either side is content-neutral, and the next
+                # write on that side must still leave the other side alone
+                side, other = (x, y) if r.random() < 0.5 else (y, x)
+                self.emit("setcow %s 0" % side)
+                self.count("histop:cow-switched-off-while-shared")
+                for _ in range(3):
+                    op2 = r.choice(["add", "rem", "crem", "cadd", "addr", "remr", "flip"])
+                    if op2 in ("addr", "remr", "flip"):
+                        a, b = self.rng(keys)
+                        self.emit("%s %s %d %d" % (op2, side, a, b))
+                    else:
+                        self.emit("%s %s %d" % (op2, side, self.val_near(keys)))
+                    self.emit("dig %s" % other)
+                if side == y:
+                    self.emit("dig %s" % x)
+            else:
+                self.emit("add %s %d" % (y, self.val_near(keys)))
+                self.emit("dig %s" % x)
         elif op == "detach":
             self.emit("detach %s" % x)
         elif op == "setcow":
